@@ -513,12 +513,16 @@ func (ip *integer) UnmarshalJSON(data []byte) error {
 		// nothing to do
 		return nil
 	}
-	// If there is a decimal point, src is a floating-point number.
+	// If there is a decimal point or an exponent, src is a floating-point number.
 	var i int64
-	if bytes.ContainsRune(data, '.') {
+	if bytes.ContainsAny(data, ".eE") {
 		var f float64
 		if err := json.Unmarshal(data, &f); err != nil {
 			return errors.New("not a number")
+		}
+		if f < math.MinInt64 || f >= math.MaxInt64 {
+			// As for an integer literal of that size.
+			return errors.New("cannot be unmarshaled into an int")
 		}
 		i = int64(f)
 		if float64(i) != f {
